@@ -15,10 +15,12 @@ import (
 
 	"github.com/go-critic/go-critic/checkers/rulesdata"
 	"github.com/go-critic/go-critic/linter"
+	"github.com/quasilyte/go-ruleguard/ruleguard/ir"
 
 	"verifharness/internal/common"
 	"verifharness/internal/coqfmt"
 	"verifharness/internal/exprgen"
+	"verifharness/internal/valdiff"
 )
 
 // rule groups of checkers/rules/rules.go whose diagnostics promise an equivalent rewrite and that
@@ -878,4 +880,54 @@ func runUnlambdaTie(meta *common.Meta, outDir string) {
 	meta.CaseFiles = append(meta.CaseFiles, "cases_c10_unlambda.v")
 	meta.Evaluations += len(bodies)
 	meta.Distribution["unlambda_callee_forms_compared"] = len(bodies)
+}
+
+// ---------------------------------------------------------------- pattern-driven value-domain differential
+
+// runSynthDiff: every pattern (also patterns a change ADDS to a group) of the rewrite groups, as executed,
+// is instantiated by the synthesiser; original and suggestion are evaluated over value domains by parameter
+// type (non-ASCII bytes, invalid UTF-8, surrogates, invalid runes, NaN, nil).
+func runSynthDiff(meta *common.Meta, outDir string) {
+	groups := map[string]bool{"redundantSprint": true, "equalFold": false}
+	for _, g := range coveredGroups {
+		groups[g] = true
+	}
+	delete(groups, "offBy1") // its suggestion is a bug fix, not an equivalence claim
+	cases, hits, misses := valdiff.Collect(
+		func(g string, r ir.Rule) bool { return groups[g] && r.SuggestTemplate != "" }, 1500,
+		func(group string, w linter.Warning, l *exprgen.Linted) (token.Pos, token.Pos, string, string, bool) {
+			if !w.HasQuickFix() {
+				return 0, 0, "", "", false
+			}
+			return w.Suggestion.From, w.Suggestion.To, string(w.Suggestion.Replacement), "", true
+		})
+	meta.Distribution["synth_rewrite_patterns_hit"] = hits
+	meta.Distribution["synth_rewrite_patterns_missed"] = misses
+	meta.Distribution["synth_rewrite_cases"] = len(cases)
+	mm, evals, err := valdiff.Run(filepath.Join(outDir, "valdiff_rules"), cases)
+	if err != nil {
+		meta.Notes = append(meta.Notes, err.Error())
+		meta.TieBroken = append(meta.TieBroken, "value-domain differential program did not build (see notes)")
+		return
+	}
+	meta.Evaluations += evals
+	meta.Distribution["synth_rewrite_evaluations"] = evals
+	specOf := map[string]ruleSpec{}
+	for _, sp := range ruleSpecs {
+		specOf[sp.checker] = sp
+	}
+	for _, m := range mm {
+		class := valdiff.Class(m.Input)
+		if sp, ok := specOf[m.Case.Group]; ok && sp.class != nil {
+			if c := sp.class(m.Case.Expr, m.Case.New); c != "unclassified" && c != "impure-operand" {
+				class = c
+			}
+		}
+		if m.Case.Group == "redundantSprint" && class == "nil-operand" {
+			class = "nil-pointer-stringer"
+		}
+		meta.Fail("C10/"+m.Case.Group+"/"+class,
+			fmt.Sprintf("%s: `%s` => `%s` (pattern %s) changes behaviour on %s: original %s, suggestion %s", m.Case.Group, m.Case.Expr, m.Case.New, m.Case.Pattern, m.Input, m.Orig, m.New),
+			map[string]interface{}{"pattern": m.Case.Pattern, "original": m.Case.Expr, "suggestion": m.Case.New, "arguments": m.Input, "original_result": m.Orig, "suggested_result": m.New})
+	}
 }
